@@ -513,6 +513,9 @@ def obligations(tier):
         obs.append({"id": f"C22/prologue/fs{i}", "kind": "prologue", "n": 0, "fn": 1 << i})
     obs.append({"id": "C22/prologue/all", "kind": "prologue", "n": (1 << 12) - 1, "fn": (1 << 12) - 1, "weight": 2})
     obs.append({"id": "C22/prologue/none", "kind": "prologue", "n": 0, "fn": 0})
+    for o in obs:
+        # the memory-model queries (e.g. canon/sw(addi): 14 s alone) have run past 165 s when all 16 workers were busy
+        o.setdefault("budget_s", 300 if tier == "quick" else 900)
     return obs
 
 
@@ -525,7 +528,7 @@ def harness(ob, concrete=None):
 
 
 def run(ob, tier, stats, exclude):
-    return decide(harness(ob), timeout_ms=30000 if tier == "quick" else 120000, budget_s=200 if tier == "quick" else 900, stats=stats, exclude=exclude, ob=ob, max_paths=3000)
+    return decide(harness(ob), timeout_ms=30000 if tier == "quick" else 120000, budget_s=ob.get("budget_s", 300), stats=stats, exclude=exclude, ob=ob, max_paths=3000)
 
 
 def evidence_extra(tier, results):
